@@ -16,7 +16,7 @@ LEVELS = [0, 1, 1, 2, 3, -1]
 def nest(rng, w):
     """random suite tree over the world's classes with layer / level
     declarations at every depth (suite, class, test instance)"""
-    lnames = list(w['layers'])
+    lnames = [l for l in w['layers'] if 'pyname' not in w['layers'][l]]   # tests are grouped by layer name
     nodes = []
     for c, cs in w['classes'].items():
         if rng.random() < 0.5 and len(cs['tests']) > 1:
